@@ -2,7 +2,7 @@
     harness wrote (what net/url and the real HTTPProxy.ServeHTTP produced next to
     the inputs that produced it). *)
 From Coq Require Import String List NArith ZArith Bool.
-From Fabio Require Import Lib.Outcome Lib.Bytes Lib.Verdict Model.UrlPathC07 Model.HttpFwd.
+From Fabio Require Import Lib.Outcome Lib.Bytes Lib.Verdict Model.UrlPathC07 Model.HttpFwd Model.NoRoutePage.
 Import ListNotations.
 Local Open Scope N_scope.
 
@@ -60,7 +60,21 @@ Inductive case :=
    (method, request target, Host); None = no upstream connection *)
 | CWs (o : route_opts) (q : request) (up : option (str * str * str))
 (* no route: configured status, page, whether any upstream was contacted, client's response *)
-| CNoRoute (status : Z) (html : str) (contacted : bool) (cl : response).
+| CNoRoute (status : Z) (html : str) (contacted : bool) (cl : response)
+(* a history of the no-route page: the real watchNoRouteHTML (main.go) fed by a scripted registry
+   backend, the store holding [init] when it starts, the proxy built by the real newHTTPProxy with
+   NoRouteStatus [status]; [h] = the deliveries the watcher took and the requests served, in order;
+   [obs] = per request of [h]: was the upstream of the table contacted, the client's response;
+   [wire] = requests over a loopback listener (net/http adds framing, a date and a sniffed type) *)
+| CNoRouteHist (wire : bool) (status : Z) (init : str) (h : list nr_step) (obs : list (bool * response)).
+
+(* short form the harness writes requests in *)
+Definition rq (m t h b : str) : request :=
+  {| rq_method := m; rq_target := t; rq_host := h; rq_headers := []; rq_body := b |}.
+Definition ob (contacted : bool) (status : Z) (hs : header) (body : str) : bool * response :=
+  (contacted, {| rs_status := status; rs_headers := hs; rs_body := body |}).
+Definition wire_noroute_drop : list str :=
+  [bs "Date"%string; bs "Content-Length"%string; bs "Content-Type"%string].
 
 Definition parse_obs (p : parsed) : str * str * str * bool * str * str :=
   (p_path p, p_rawpath p, p_rawquery p, p_force p,
@@ -189,4 +203,12 @@ Definition check_case (c : case) : N :=
       let want := if ((100 <=? status) && (status <=? 999))%Z then status else 404%Z in
       let spec := negb contacted && (rs_status cl =? want)%Z && beq (rs_body cl) html in
       verdict same spec None true
+  | CNoRouteHist wire status init h obs =>
+      let drop := if wire then wire_noroute_drop else [] in
+      let m := nr_model_obs (nr_run wire status init h) in
+      let same := list_eqb (fun a b => Bool.eqb (fst a) (fst b)
+                                       && response_eqb (proj_resp drop (snd a)) (proj_resp drop (snd b))) obs m in
+      (* spec: every request got the configured status and the last page delivered before it *)
+      let spec := nr_spec_b status init h obs in
+      verdict same spec None (Nat.leb 1 (nr_changes init h) && negb (Nat.eqb (length obs) 0))
   end.
